@@ -15,6 +15,7 @@
 #include <unistd.h>
 #include <arpa/inet.h>
 #include <sys/time.h>
+#include <time.h>
 #include <syslog.h>
 int sim_socket(int domain, int type, int protocol);
 int sim_connect(int fd, const struct sockaddr *addr, socklen_t len);
@@ -24,6 +25,7 @@ ssize_t sim_write(int fd, const void *buf, size_t n);
 ssize_t sim_recv(int fd, void *buf, size_t n, int flags);
 ssize_t sim_send(int fd, const void *buf, size_t n, int flags);
 int sim_close(int fd);
+time_t sim_time(time_t *t);
 char *sim_strdup(const char *s);
 void sim_free(void *p);
 #ifndef SIM_DRIVER
@@ -35,6 +37,7 @@ void sim_free(void *p);
 #define recv sim_recv
 #define send sim_send
 #define close sim_close
+#define time sim_time
 #define strdup sim_strdup
 #define free sim_free
 #endif
